@@ -30,7 +30,10 @@ class Stack:
     """platform: 'ledger' (HSM2Dongle over fake HID), 'sgx' (HSM2DongleSGX over
     fake socket), 'tcp' (HSM2DongleTCP over fake socket)."""
 
-    def __init__(self, device, version_one=False, pin=None, platform=None):
+    def __init__(self, device, version_one=False, pin=None, platform=None, iodebug=False):
+        # iodebug: the manager's -D / --iodebug option (low-level I/O traces; what the
+        # transport prints goes to a sink)
+        self.iodebug = iodebug
         self.device = device
         self.platform = platform or device.platform
         self.bus = Bus(device, VirtualClock())
@@ -49,17 +52,17 @@ class Stack:
             es.enter_context(HidPatch(self.bus))
             from ledger.hsm2dongle import HSM2Dongle
             Platform.set(Platform.LEDGER)
-            self.dongle = HSM2Dongle(False)
+            self.dongle = HSM2Dongle(self.iodebug)
         elif self.platform == "sgx":
             es.enter_context(TcpPatch(self.bus))
             from sgx.hsm2dongle import HSM2DongleSGX
             Platform.set(Platform.SGX)
-            self.dongle = HSM2DongleSGX("simhost", 7777, False)
+            self.dongle = HSM2DongleSGX("simhost", 7777, self.iodebug)
         else:
             es.enter_context(TcpPatch(self.bus))
             from ledger.hsm2dongle_tcp import HSM2DongleTCP
             Platform.set(Platform.X86)
-            self.dongle = HSM2DongleTCP("simhost", 8888, False)
+            self.dongle = HSM2DongleTCP("simhost", 8888, self.iodebug)
         # waiting for the app to open is pure delay
         self._saved_wait = lp.HSM2ProtocolLedger.OPEN_APP_WAIT
         lp.HSM2ProtocolLedger.OPEN_APP_WAIT = 0
@@ -68,6 +71,8 @@ class Stack:
             self.protocol = HSM1ProtocolLedger(self.pin, self.dongle)
         else:
             self.protocol = lp.HSM2ProtocolLedger(self.pin, self.dongle)
+        if self.iodebug:
+            es.enter_context(contextlib.redirect_stdout(io.StringIO()))
         return self
 
     def __exit__(self, *a):
